@@ -223,8 +223,10 @@ def work_hex_ptr(task):
     _, tier, w, part, nparts = task
     blocks = [b for i, b in enumerate(hex_blocks(w)) if i % nparts == part]
     specs = [BlockSpec(n, c, ['ft'], None, ()) for n, c in blocks]
-    variables = [('p', w // 4), ('q', w // 4), ('idx', w // 4), ('h', 1), ('by', 2), ('v4', 4), ('buf', K + 3, 8)]
+    # buffer cell 4 (cells index 5) starts at a multiple of 0x10000 bits: pointer increments / restores carry out of the low hexes there
+    variables = [('p', w // 4), ('q', w // 4), ('idx', w // 4), ('h', 1), ('by', 2), ('v4', 4), ('buf', K + 3, 8, (0x10000, 5))]
     h = Harness(w, 'hex', 1, variables, specs, scratch(), tag=f'c08-{w}-{part}')
+    assert (h.labels['buf'] + 5 * 2 * w) % 0x10000 == 0
     sieve = Sieve(PROP, MATCHERS)
     stats = {'transitions': 0, 'states': 0, 'blocks': 0}
     dw = 2 * w
